@@ -354,6 +354,8 @@ def case_posterior(B, cfg):
         if hit is None:
             continue
         c, d, row = hit
+        B.cover('posterior row of sample %d' % sid, (c, d),
+                expect=[(c_, d_) for c_ in range(nc) for d_ in range(nd)])
         for args, V in lst:
             B.fact('sample %d: same row at every time' % sid,
                    all(a is b for a, b in zip(args, args0)))
